@@ -6,8 +6,10 @@ package main
 // but the directory that holds the build's temporary files (TMPDIR and WithTempDir). The layer
 // and the /etc/apk/repositories file inside it must be the same, and must not name a temporary
 // path: initializeApk appends the base image's auxiliary index (a file below the temp dir) to the
-// repositories while installing, postBuildSetApk takes it out again. Judged here (Go), reported as
-// IMPL-VIOLATION lines; the Coq side has no model of base images.
+// repositories while installing, postBuildSetApk takes it out again. Judged in Coq (Corr/C01.v
+// check_base): the build-time file against the model of initializeApk (lists read from the source),
+// the final file against the generated build steps, and the validator (nothing of the temp
+// directory in the image, both runs equal).
 
 import (
 	"archive/tar"
@@ -25,6 +27,8 @@ import (
 	"chainguard.dev/apko/pkg/build"
 	"chainguard.dev/apko/pkg/build/types"
 	"chainguard.dev/apko/pkg/tarfs"
+
+	"verifharness/gal"
 )
 
 func layerFile(l v1.Layer, name string) (string, error) {
@@ -53,22 +57,48 @@ func layerFile(l v1.Layer, name string) (string, error) {
 	}
 }
 
-func baseImageBuild(arch, tmpRoot string) (digest, repos string, err error) {
+type baseRun struct {
+	Tmp            string
+	BuildTime      []string // lines of etc/apk/repositories after build.New (initializeApk)
+	Final          []string // lines of that file inside the layer
+	Digest         string
+	Build, Runtime []string // the configuration's lists as build.New sees them
+}
+
+func fileLines(s string) []string {
+	s = strings.TrimSuffix(s, "\n")
+	if s == "" {
+		return nil
+	}
+	return strings.Split(s, "\n")
+}
+
+func baseImageBuild(arch, tmpRoot string, xbuild, xruntime []string) (run baseRun, err error) {
 	os.Setenv("TMPDIR", tmpRoot)
 	apkoTemp := filepath.Join(tmpRoot, "apko-temp")
 	if err := os.MkdirAll(apkoTemp, 0o755); err != nil {
-		return "", "", err
+		return run, err
 	}
+	run.Tmp = tmpRoot
 	ctx := context.Background()
 	err = guard("build on a base image", func() error {
-		bc, err := build.New(ctx, tarfs.New(),
+		fs := tarfs.New()
+		bc, err := build.New(ctx, fs,
 			build.WithConfig(filepath.Join("testdata", "image_on_top.apko.yaml"), []string{}),
 			build.WithLockFile(filepath.Join("testdata", "image_on_top.apko.lock.json")),
 			build.WithArch(types.ParseArchitecture(arch)),
+			build.WithExtraBuildRepos(xbuild), build.WithExtraRuntimeRepos(xruntime),
 			build.WithTempDir(apkoTemp))
 		if err != nil {
 			return err
 		}
+		ic := bc.ImageConfiguration()
+		run.Build, run.Runtime = ic.Contents.BuildRepositories, ic.Contents.RuntimeRepositories
+		b, err := fs.ReadFile("etc/apk/repositories")
+		if err != nil {
+			return err
+		}
+		run.BuildTime = fileLines(string(b))
 		layers, err := bc.BuildLayers(ctx)
 		if err != nil {
 			return err
@@ -80,11 +110,12 @@ func baseImageBuild(arch, tmpRoot string) (digest, repos string, err error) {
 		if err != nil {
 			return err
 		}
-		digest = d.String()
-		repos, err = layerFile(layers[0], "etc/apk/repositories")
+		run.Digest = d.String()
+		repos, err := layerFile(layers[0], "etc/apk/repositories")
+		run.Final = fileLines(repos)
 		return err
 	})
-	return digest, repos, err
+	return run, err
 }
 
 func stageBaseImage() {
@@ -99,24 +130,39 @@ func stageBaseImage() {
 	if err := os.Chdir(filepath.Join(repoDir(), "pkg", "build")); err != nil {
 		fatal("%v", err)
 	}
+	w := &gal.Writer{Dir: *outDir, Require: "From Apko Require Import Corr.C01.", Type: "base_case", Check: "check_base", Shard: 50}
 	builds, skipped := 0, 0
+	type variant struct {
+		name             string
+		xbuild, xruntime []string
+	}
+	// the configuration as it is (no build-time repositories at all), and with --repository-append / build repositories
+	variants := []variant{{"as-configured", nil, nil}, {"extra-repositories", []string{"/opt/c01/build-only", "./testdata/packages"}, []string{"/opt/c01/runtime-extra"}}}
 	for _, arch := range []string{"x86_64", "aarch64"} {
-		dA, rA, errA := baseImageBuild(arch, filepath.Join(root, "first-tmp"))
-		dB, rB, errB := baseImageBuild(arch, filepath.Join(root, "second tmp", "deeper"))
-		builds += 2
-		if errA != nil || errB != nil {
-			// the repository's testdata no longer builds this way: nothing to compare (reported, not judged)
-			skipped++
-			fmt.Printf("STAT %s\n", jsonOf(map[string]any{"baseimage_build_error_" + arch: fmt.Sprint(errA, " / ", errB)}))
-			continue
-		}
-		d := map[string]any{"configuration": "pkg/build/testdata/image_on_top.apko.yaml", "arch": arch, "first_digest": dA, "second_digest": dB, "first_repositories": rA, "second_repositories": rB}
-		switch {
-		case rA != rB || strings.Contains(rA, root):
-			fmt.Printf("IMPL-VIOLATION tag=digest-differs/base-image-temp-path-in-repositories %s\n", jsonOf(d))
-		case dA != dB:
-			fmt.Printf("IMPL-VIOLATION tag=digest-differs/base-image-tempdir %s\n", jsonOf(d))
+		for _, v := range variants {
+			a, errA := baseImageBuild(arch, filepath.Join(root, "first-tmp"), v.xbuild, v.xruntime)
+			b, errB := baseImageBuild(arch, filepath.Join(root, "second tmp", "deeper"), v.xbuild, v.xruntime)
+			builds += 2
+			if errA != nil || errB != nil {
+				// the repository's testdata no longer builds this way: nothing to compare (reported, not judged)
+				skipped++
+				fmt.Printf("STAT %s\n", jsonOf(map[string]any{"baseimage_build_error_" + arch + "_" + v.name: fmt.Sprint(errA, " / ", errB)}))
+				continue
+			}
+			var runs []string
+			for _, r := range []baseRun{a, b} {
+				runs = append(runs, fmt.Sprintf("{| br_tmp := %s; br_build_time := %s; br_final := %s; br_digest := %s |}",
+					gal.Str(r.Tmp), gal.StrList(r.BuildTime), gal.StrList(r.Final), gal.Str(r.Digest)))
+			}
+			term := fmt.Sprintf("{| bi_arch := %s; bi_cfg := {| rc_build := %s; rc_runtime := %s; rc_xbuild := %s; rc_xruntime := %s |}; bi_root := %s; bi_runs := %s |}",
+				gal.Str(arch), gal.StrList(a.Build), gal.StrList(a.Runtime), gal.StrList(v.xbuild), gal.StrList(v.xruntime), gal.Str(root), gal.List(runs))
+			w.Add(gal.Case{Term: term, Class: "baseimage/" + v.name, Trivial: false, Key: arch + "/" + v.name,
+				Desc: map[string]any{"configuration": "pkg/build/testdata/image_on_top.apko.yaml", "arch": arch, "variant": v.name,
+					"extra_build_repositories": v.xbuild, "extra_runtime_repositories": v.xruntime, "first": a, "second": b}})
 		}
 	}
-	fmt.Printf("STAT %s\n", jsonOf(map[string]any{"baseimage_builds": builds, "baseimage_architectures_not_built": skipped}))
+	if err := w.Flush(); err != nil {
+		fatal("%v", err)
+	}
+	fmt.Printf("STAT %s\n", jsonOf(map[string]any{"baseimage_builds": builds, "baseimage_variants_not_built": skipped}))
 }
